@@ -329,6 +329,8 @@ Dispatch(o, e) ==
       [] e.ev = "heal"        -> ObsHeal(o, e)
       [] e.ev = "round_end"   -> ObsRoundEnd(o, e)
       [] e.ev = "tokenbytes"  -> ObsTokenBytes(o, e)
+      [] e.ev = "rt"          -> FlagIf(o, ~e.ok, <<"C16", "RoundTrip">>)
+      [] e.ev = "re"          -> FlagIf(o, e.decodable /\ ~e.ok, <<"C16", "Reencode">>)
       [] e.ev = "pending_gone" -> ObsPendingGone(o, e)
       [] OTHER                -> o
 
